@@ -5,6 +5,7 @@ import (
 	"encoding/json"
 	"fmt"
 	"os"
+	"os/exec"
 	"path/filepath"
 	"runtime/debug"
 	"strconv"
@@ -87,6 +88,68 @@ type ReplayFile struct {
 	LogTail  []string          `json:"event_log_tail"`
 	LogHash  string            `json:"event_log_hash"`
 	Extra    map[string]string `json:"extra,omitempty"`
+	// Prelude: the violation depends on state that survives from earlier runs of the same worker process
+	// (e.g. a package-level variable of the daemon). The replay then first re-executes those runs -
+	// indices Worker, Worker+NWorkers, ... below run_index, generated from base_seed - in the same process.
+	Prelude *Prelude `json:"prelude,omitempty"`
+}
+
+type Prelude struct {
+	Worker   int `json:"worker"`
+	NWorkers int `json:"nworkers"`
+}
+
+// freshReplayReproduces re-executes a replay file in a new process of this test binary.
+func freshReplayReproduces(path string) bool {
+	out := path + ".verify.out"
+	defer os.Remove(out)
+	cmd := exec.Command(os.Args[0], "-test.run", "^TestVerif$", "-test.timeout", "0")
+	var env []string
+	for _, kv := range os.Environ() {
+		switch {
+		case strings.HasPrefix(kv, "VERIF_REPLAY="), strings.HasPrefix(kv, "VERIF_OUT="), strings.HasPrefix(kv, "VERIF_LOGHASH="),
+			strings.HasPrefix(kv, "VERIF_RACELOG="), strings.HasPrefix(kv, "VERIF_NO_FRESH_REPLAY="):
+		case strings.HasPrefix(kv, "GORACE="):
+			if i := strings.Index(kv, "log_path="); i >= 0 {
+				rest := kv[i+len("log_path="):]
+				j := strings.IndexByte(rest, ' ')
+				if j < 0 {
+					j = len(rest)
+				}
+				kv = kv[:i] + "log_path=" + out + ".racelog" + rest[j:]
+				env = append(env, "VERIF_RACELOG="+out+".racelog")
+			}
+			env = append(env, kv)
+		default:
+			env = append(env, kv)
+		}
+	}
+	cmd.Env = append(env, "VERIF_REPLAY="+path, "VERIF_OUT="+out, "VERIF_NO_FRESH_REPLAY=1")
+	done := make(chan error, 1)
+	if err := cmd.Start(); err != nil {
+		return true // cannot verify: keep the minimised file
+	}
+	go func() { done <- cmd.Wait() }()
+	select {
+	case <-done:
+	case <-time.After(5 * time.Minute):
+		cmd.Process.Kill()
+		<-done
+	}
+	if files, _ := filepath.Glob(out + ".racelog*"); len(files) > 0 {
+		for _, f := range files {
+			os.Remove(f)
+		}
+	}
+	b, err := os.ReadFile(out)
+	if err != nil {
+		return false
+	}
+	var wr WorkerResult
+	if json.Unmarshal(b, &wr) != nil {
+		return false
+	}
+	return wr.ReplayState == "reproduced"
 }
 
 func envInt(k string, def int) int {
@@ -247,6 +310,20 @@ func Main(t *testing.T, units ...Unit) {
 		}
 		res.Prop = rf.Property
 		prop = rf.Property
+		tier = rf.Tier
+		if rf.Prelude != nil && rf.Prelude.NWorkers > 0 {
+			for idx := rf.Prelude.Worker; idx < rf.Index; idx += rf.Prelude.NWorkers {
+				runSeed := Mix(rf.BaseSeed, HashString(u.Name), uint64(idx))
+				pr := newRun(NewTape(runSeed), runSeed, idx, true)
+				pr.Prop = rf.Property
+				if err := execRun(u, pr); err != nil {
+					res.Error = fmt.Sprintf("prelude run %d: %v", idx, err)
+					finish()
+					return
+				}
+				acc.Runs++
+			}
+		}
 		r := newRun(ReplayTape(rf.Tape), rf.RunSeed, rf.Index, false)
 		r.Prop = rf.Property
 		r.Tier = rf.Tier
@@ -334,12 +411,40 @@ func Main(t *testing.T, units ...Unit) {
 				LogTail: minRun.log, LogHash: fmt.Sprintf("%016x", minRun.LogHash()), Package: os.Getenv("VERIF_PKG")}
 			os.MkdirAll(replayDir, 0755)
 			path := filepath.Join(replayDir, fmt.Sprintf("%s-%s-%d-%08x.json", prop, strings.ReplaceAll(u.Name, "/", "_"), seed64, uint32(Mix(runSeed, uint64(len(minTape))))))
-			b, _ := json.MarshalIndent(rf, "", " ")
-			if err := os.WriteFile(path, b, 0644); err != nil {
-				res.Error = "cannot write replay file: " + err.Error()
+			write := func() {
+				b, _ := json.MarshalIndent(rf, "", " ")
+				if err := os.WriteFile(path, b, 0644); err != nil {
+					res.Error = "cannot write replay file: " + err.Error()
+				}
 			}
-			res.Violations = append(res.Violations, ViolationReport{Violation: *minRun.viol, Seed: runSeed, Index: idx, ReplayPath: path,
-				TapeLen: len(minTape), OrigLen: len(orig), MinRuns: nexec})
+			write()
+			rep := ViolationReport{Violation: *minRun.viol, Seed: runSeed, Index: idx, ReplayPath: path,
+				TapeLen: len(minTape), OrigLen: len(orig), MinRuns: nexec}
+			// The replay must reproduce in a fresh process. If the minimised tape alone does not (the
+			// violation needs state left behind by earlier runs of this process), fall back to the
+			// unminimised tape preceded by this worker's earlier runs.
+			if i > 0 && os.Getenv("VERIF_NO_FRESH_REPLAY") == "" && !freshReplayReproduces(path) {
+				minimal := rf
+				rf.Tape, rf.Rule, rf.Sig, rf.Message, rf.Scenario, rf.LogTail = orig, r.viol.Rule, r.viol.Sig, r.viol.Msg, r.scenario, r.log
+				rf.LogHash = fmt.Sprintf("%016x", r.LogHash())
+				rf.Extra = map[string]string{"note": "only the unminimised tape reproduces in a fresh process (the shrunk one relied on state left by earlier runs of the searching process)"}
+				write()
+				ok := freshReplayReproduces(path)
+				if !ok {
+					rf.Prelude = &Prelude{Worker: worker, NWorkers: nworkers}
+					rf.Extra = map[string]string{"note": "depends on state that survives between runs of one process: the replay re-executes this worker's earlier runs first"}
+					write()
+					ok = freshReplayReproduces(path)
+				}
+				if ok {
+					rep = ViolationReport{Violation: *r.viol, Seed: runSeed, Index: idx, ReplayPath: path, TapeLen: len(orig), OrigLen: len(orig), MinRuns: nexec}
+				} else {
+					rf = minimal
+					rf.Extra = map[string]string{"note": "did not reproduce in a fresh process, neither alone nor after this worker's earlier runs"}
+					write()
+				}
+			}
+			res.Violations = append(res.Violations, rep)
 			break
 		}
 	}
